@@ -67,6 +67,11 @@ fn main() {
             c18::child(seed, n);
             runq::cleanup_tmp();
         }
+        "c14long" => {
+            let kind: usize = args.get(2).and_then(|s| s.parse().ok()).unwrap_or(0);
+            let n: usize = args.get(3).and_then(|s| s.parse().ok()).unwrap_or(1000);
+            c14::long_child(kind, n);
+        }
         "tzscan" => {
             let seed: u64 = args.get(2).and_then(|s| s.parse().ok()).unwrap_or(1);
             let n: usize = args.get(3).and_then(|s| s.parse().ok()).unwrap_or(1000);
